@@ -1556,7 +1556,9 @@ class Tensor:
                                     Fiber.swapRanksBelow,
                                     depth=depth)
         else:
-            root = copy.deepcopy(self.getRoot())
+            # Note: the tensor holds nothing but (possibly explicit)
+            # defaults, whose coordinates must not be kept unswapped
+            root = Fiber()
 
         #
         # Create Tensor from rank_ids and root fiber
